@@ -531,7 +531,7 @@ def run(tier, seed, replay=None):
                 ("groovy", 60, ["--max-type-params", "2", "--disable-use-site-variance"]),
                 ("scala", 60, ["--max-type-params", "1", "--disable-bounded-type-parameters"])]
     else:
-        plan = [(l, 400, ["--max-type-params", str(m)] + x) for l in T.LANGS for m in (1, 2, 5)
+        plan = [(l, 150, ["--max-type-params", str(m)] + x) for l in T.LANGS for m in (1, 2, 5)
                 for x in ([], ["--max-depth", "3"], ["--disable-parameterized-functions", "--disable-use-site-variance"])]
     env = dict(os.environ, PYTHONPATH=C.REPO + os.pathsep + os.path.join(C.VERIF, "harness"), PYTHONHASHSEED="0")
 
